@@ -157,8 +157,12 @@ def identEq : Ident → Ident → Option Bool
       if hasSlice p || hasSlice p' then (if p == p' then some true else none)
       else some (p == p')
     else none
-  | .fresh, .known _ _ => some false
-  | .known _ _, .fresh => some false
+  -- a fresh value was allocated during the run, so it is not (part of) the program input
+  -- (root 0); any other root is a `path(…)` activation re-rooted at a value whose identity the
+  -- model did not know — possibly this very fresh value, reached again through a variable or
+  -- a second evaluation of the same constant
+  | .fresh, .known r _ => if r == 0 then some false else none
+  | .known r _, .fresh => if r == 0 then some false else none
   | _, _ => none
 
 def isEmptyArr : JV → Bool | .arr [] => true | _ => false
@@ -783,7 +787,10 @@ def evalCore : Nat → Cfg → Env → TermCore → St → Res
             | e => (errMessage e).map .str
           match msg with
           | none => ⟨r.outs, .unmodelled "catch: message of a built-in error not computed by the model"⟩
-          | some m => (⟨r.outs, .done⟩ : Res).append fun _ => eval fuel cfg env c (computed s m)
+          | some m =>
+            -- `error(v)` hands `v` itself to the handler: a container keeps whatever identity it had
+            let caught : St := { v := m, id := if isContainer m then .unknown else .fresh, ctx := s.ctx }
+            (⟨r.outs, .done⟩ : Res).append fun _ => eval fuel cfg env c caught
       | _ => r
     | .reduce src pat start update =>
       -- start (tracked), then for each output of src bind the pattern and run update on the
